@@ -782,7 +782,9 @@ class Facts:
             self._ti_hdr = {}
             for n, f in self.fns.items():
                 st = f.j.get("impl_self")
-                if st and f.j.get("impl_trait"):
+                # a foreign generic function can only call methods of traits it knows: never those of a trait
+                # defined in this crate (NetworkMatchable, Optimization, ...)
+                if st and f.j.get("impl_trait") and not f.j.get("impl_trait_local"):
                     # index by every local ADT mentioned in the impl header (Self type and trait
                     # arguments, e.g. `impl From<WireFmt> for (Blocker, Cache)`)
                     hdr = st + " " + n.split("::{closure")[0]
